@@ -107,6 +107,42 @@ Definition agree (bound : nat) (r1 r2 : item -> item -> outcome bool) : Prop :=
 Lemma agree_le n m r1 r2 : m <= n -> agree n r1 r2 -> agree m r1 r2.
 Proof. intros H A a b L. apply A. lia. Qed.
 
+Ltac fixed_cfg :=
+  unfold cfg_fixed;
+  cbn [c_member_items c_link_branch c_iris_lists c_url_isnil c_conv_err c_with_driven c_nil_guards].
+
+(* ================================================================================================================
+   From here to the end of module EqGP every lemma is GENERIC in the IRI comparison [ideq a b cs] = a.Equals(b, cs)
+   (builder b47): the definitions are those of module EqG of Model/Equal.v, the only facts used about the comparison
+   are reflexivity and symmetry on all strings.  Inside the section the short names stand for the generic definitions
+   applied to [ideq]; after the module the same lemma names are re-established for [iri_eqb] (the instance every
+   earlier statement was about) by instantiation - nothing is proved twice.  Proofs/EqualUP.v instantiates with
+   [iri_equ] (IRI.Equals over net/url on all byte strings). *)
+Module EqGP.
+Section IdRel.
+  Variable ideq : bytes -> bytes -> bool -> bool.
+  Hypothesis ideq_refl : forall s cs, ideq s s cs = true.
+  Hypothesis ideq_sym : forall a b cs, ideq a b cs = ideq b a cs.
+  Local Notation cmp_one := (EqG.cmp_one ideq).
+  Local Notation all_cmp := (EqG.all_cmp ideq).
+  Local Notation object_equals := (EqG.object_equals ideq).
+  Local Notation intransitive_equals := (EqG.intransitive_equals ideq).
+  Local Notation activity_equals := (EqG.activity_equals ideq).
+  Local Notation actor_equals := (EqG.actor_equals ideq).
+  Local Notation collection_equals := (EqG.collection_equals ideq).
+  Local Notation page_equals := (EqG.page_equals ideq).
+  Local Notation ordered_equals := (EqG.ordered_equals ideq).
+  Local Notation opage_equals := (EqG.opage_equals ideq).
+  Local Notation link_equals := (EqG.link_equals ideq).
+  Local Notation equals_method := (EqG.equals_method ideq).
+  Local Notation object_branch := (EqG.object_branch ideq).
+  Local Notation items_equal_body := (EqG.items_equal_body ideq).
+  Local Notation items_equal_c := (EqG.items_equal_c ideq).
+  Local Notation items_equal := (EqG.items_equal ideq).
+  Local Notation items_equal_pinned := (EqG.items_equal_pinned ideq).
+  Local Notation ieq := (EqGI.ieq ideq).
+  Local Notation ieq_pinned := (EqGI.ieq_pinned ideq).
+
 Section Ext.
   Variable cfg : eqcfg.
   Variables r1 r2 : item -> item -> outcome bool.
@@ -343,9 +379,6 @@ Section Ext.
 End Ext.
 
 (* ---------------------------------------------------------------- totality of the repaired code *)
-Ltac fixed_cfg :=
-  unfold cfg_fixed;
-  cbn [c_member_items c_link_branch c_iris_lists c_url_isnil c_conv_err c_with_driven c_nil_guards].
 
 Section Tot.
   Variable rec : item -> item -> outcome bool.
@@ -659,12 +692,12 @@ Proof.
   - destruct (view_items fs) as [l|] eqn:E; [|reflexivity].
     apply itemcoll_refl; try reflexivity. intros x Hx. apply IH. apply in_lsize in Hx.
     apply view_items_size in E. lia.
-  - destruct (is_nil (get_item F_URL fs)); [reflexivity|]. rewrite iri_eqb_refl. reflexivity.
+  - destruct (is_nil (get_item F_URL fs)); [reflexivity|]. rewrite ideq_refl. reflexivity.
   - destruct (vtime_is_zero _); [reflexivity|]. unfold time_equal. rewrite !Z.eqb_refl. reflexivity.
   - destruct (_ =? 0)%Z; [reflexivity|]. rewrite Z.eqb_refl. reflexivity.
   - destruct (_ =? 0)%N; [reflexivity|]. rewrite N.eqb_refl. reflexivity.
   - destruct (get_str f fs) as [|b0 s0] eqn:E; [reflexivity|]. f_equal. exact (bytes_eqb_refl (b0 :: s0)).
-  - destruct (get_str f fs) eqn:E; [reflexivity|]. rewrite iri_eqb_refl. reflexivity.
+  - destruct (get_str f fs) eqn:E; [reflexivity|]. rewrite ideq_refl. reflexivity.
 Qed.
 
 Lemma all_cmp_refl cs fs :
@@ -683,7 +716,7 @@ Section Refl.
   Lemma object_equals_refl p k : k <> KLink -> object_equals cfg_fixed ieq fs (IObj p k fs) = Ok true.
   Proof.
     intro Hk. unfold object_equals. rewrite nil_guard_obj. cbn [is_item_collection].
-    unfold lnk, typ. cbn [get_link get_type]. rewrite iri_eqb_refl, fold_eqb_refl. cbn [negb].
+    unfold lnk, typ. cbn [get_link get_type]. rewrite ideq_refl, fold_eqb_refl. cbn [negb].
     unfold as_kind. replace (cast_ok KObject k) with true by (destruct k; try reflexivity; congruence).
     apply all_cmp_refl. exact IH.
   Qed.
@@ -755,7 +788,7 @@ Section Refl.
   Lemma link_equals_refl p : link_equals cfg_fixed ieq fs (IObj p KLink fs) = Ok true.
   Proof.
     unfold link_equals. cbn [is_nil is_link negb orb]. unfold as_kind. cbn [cast_ok].
-    rewrite iri_eqb_refl, fold_eqb_refl. cbn [negb]. apply all_cmp_refl. exact IH.
+    rewrite ideq_refl, fold_eqb_refl. cbn [negb]. apply all_cmp_refl. exact IH.
   Qed.
 
   Lemma object_branch_refl p k : k <> KLink -> object_branch cfg_fixed ieq (IObj p k fs) (IObj p k fs) = Ok true.
@@ -787,7 +820,7 @@ Proof.
   rewrite ieq_unfold. unfold items_equal_body.
   destruct (is_nil x) eqn:En; [reflexivity|]. cbn [orb]. rewrite needs_swap_refl.
   destruct (is_iri x) eqn:Ei.
-  { cbn [orb]. rewrite iri_eqb_refl. reflexivity. }
+  { cbn [orb]. rewrite ideq_refl. reflexivity. }
   cbn [orb].
   destruct (is_item_collection x) eqn:Ec.
   { cbn [negb]. destruct (to_item_collection x) as [l|] eqn:El.
@@ -809,11 +842,11 @@ Proof. apply (ieq_refl_size (esize x)). apply le_n. Qed.
 
 (* ---------------------------------------------------------------- identity: ids / types that differ *)
 Definition mism (fs gs : fields) : Prop :=
-  iri_eqb (get_str F_ID fs) (get_str F_ID gs) true = false \/
+  ideq (get_str F_ID fs) (get_str F_ID gs) true = false \/
   fold_eqb (get_str F_Type fs) (get_str F_Type gs) = false.
 
 Lemma mism_sym fs gs : mism fs gs -> mism gs fs.
-Proof. intros [H|H]; [left; rewrite iri_eqb_sym|right; rewrite fold_eqb_sym]; exact H. Qed.
+Proof. intros [H|H]; [left; rewrite ideq_sym|right; rewrite fold_eqb_sym]; exact H. Qed.
 
 Lemma obind_false_total o : total o -> obind o (fun r2 => Ok (false && r2)) = Ok false.
 Proof. intros [v ->]. reflexivity. Qed.
@@ -824,7 +857,7 @@ Proof.
   unfold lnk, typ. cbn [get_link get_type].
   destruct M as [H|H].
   - rewrite H. reflexivity.
-  - rewrite H. destruct (negb (iri_eqb _ _ _)); reflexivity.
+  - rewrite H. destruct (negb (ideq _ _ _)); reflexivity.
 Qed.
 
 (* whenever Object.Equals rejects the pair (whatever view it is handed), every more specific Equals does *)
@@ -1014,7 +1047,7 @@ Qed.
 Lemma cmp_url_rejects fs gs :
   is_nil (get_item F_URL gs) = false ->
   (is_nil (get_item F_URL fs) = true \/
-   iri_eqb (lnk (get_item F_URL gs)) (lnk (get_item F_URL fs)) false = false) ->
+   ideq (lnk (get_item F_URL gs)) (lnk (get_item F_URL fs)) false = false) ->
   cmp_one cfg_fixed ieq CUrl fs gs = Ok false.
 Proof.
   intros Hn He. simpl. fixed_cfg. rewrite Hn. destruct (is_nil (get_item F_URL fs)); [reflexivity|].
@@ -1023,7 +1056,7 @@ Qed.
 
 (* ItemsEqual on two IRIs, on an unset and a set property *)
 Lemma ieq_iris p a q b : is_nil (IIri p a) = false -> is_nil (IIri q b) = false ->
-  ieq (IIri p a) (IIri q b) = Ok (iri_eqb a b false).
+  ieq (IIri p a) (IIri q b) = Ok (ideq a b false).
 Proof.
   intros Ha Hb. rewrite ieq_unfold. unfold items_equal_body. rewrite Ha, Hb. cbn [orb].
   unfold needs_swap. cbn [is_iri negb andb]. unfold typ. cbn [get_type]. rewrite iri_not_object_type.
@@ -1031,10 +1064,10 @@ Proof.
 Qed.
 
 Lemma ieq_ids_differ p k fs q k' gs :
-  k <> KLink -> k' <> KLink -> iri_eqb (get_str F_ID fs) (get_str F_ID gs) true = false ->
+  k <> KLink -> k' <> KLink -> ideq (get_str F_ID fs) (get_str F_ID gs) true = false ->
   ieq (IObj p k fs) (IObj q k' gs) = Ok false /\ ieq (IObj q k' gs) (IObj p k fs) = Ok false.
 Proof.
-  intros Hk Hk' H. split; apply ieq_mism; auto; [left; exact H|left; rewrite iri_eqb_sym; exact H].
+  intros Hk Hk' H. split; apply ieq_mism; auto; [left; exact H|left; rewrite ideq_sym; exact H].
 Qed.
 
 Lemma ieq_types_differ p k fs q k' gs :
@@ -1043,6 +1076,113 @@ Lemma ieq_types_differ p k fs q k' gs :
 Proof.
   intros Hk Hk' H. split; apply ieq_mism; auto; [right; exact H|right; rewrite fold_eqb_sym; exact H].
 Qed.
+
+End IdRel.
+End EqGP.
+
+Notation need := EqGP.need.
+Notation clamp := EqGP.clamp.
+Notation mism := (EqGP.mism iri_eqb).
+(* ---- the instance with [iri_eqb]: every name as it was, by instantiation of the generic lemma ---- *)
+Ltac inst L :=
+  first [ exact (L iri_eqb iri_eqb_refl iri_eqb_sym) | exact (L iri_eqb iri_eqb_refl) | exact (L iri_eqb iri_eqb_sym)
+        | exact (L iri_eqb) | exact L ].
+Definition contains_ext := ltac:(inst EqGP.contains_ext).
+Definition all_contained_ext := ltac:(inst EqGP.all_contained_ext).
+Definition itemcoll_ext := ltac:(inst EqGP.itemcoll_ext).
+Definition cmp_one_ext := ltac:(inst EqGP.cmp_one_ext).
+Definition all_cmp_ext := ltac:(inst EqGP.all_cmp_ext).
+Definition object_equals_ext := ltac:(inst EqGP.object_equals_ext).
+Definition intransitive_equals_ext := ltac:(inst EqGP.intransitive_equals_ext).
+Definition activity_equals_ext := ltac:(inst EqGP.activity_equals_ext).
+Definition actor_equals_ext := ltac:(inst EqGP.actor_equals_ext).
+Definition agree_comm := ltac:(inst EqGP.agree_comm).
+Definition collection_equals_ext := ltac:(inst EqGP.collection_equals_ext).
+Definition page_equals_ext := ltac:(inst EqGP.page_equals_ext).
+Definition ordered_equals_ext := ltac:(inst EqGP.ordered_equals_ext).
+Definition opage_equals_ext := ltac:(inst EqGP.opage_equals_ext).
+Definition link_equals_ext := ltac:(inst EqGP.link_equals_ext).
+Definition object_branch_ext := ltac:(inst EqGP.object_branch_ext).
+Definition body_ext := ltac:(inst EqGP.body_ext).
+Definition contains_total := ltac:(inst EqGP.contains_total).
+Definition all_contained_total := ltac:(inst EqGP.all_contained_total).
+Definition itemcoll_total := ltac:(inst EqGP.itemcoll_total).
+Definition cmp_one_total := ltac:(inst EqGP.cmp_one_total).
+Definition all_cmp_total := ltac:(inst EqGP.all_cmp_total).
+Definition nil_guard_total := ltac:(inst EqGP.nil_guard_total).
+Definition object_equals_total := ltac:(inst EqGP.object_equals_total).
+Definition intransitive_equals_total := ltac:(inst EqGP.intransitive_equals_total).
+Definition activity_equals_total := ltac:(inst EqGP.activity_equals_total).
+Definition actor_equals_total := ltac:(inst EqGP.actor_equals_total).
+Definition collection_equals_total := ltac:(inst EqGP.collection_equals_total).
+Definition page_equals_total := ltac:(inst EqGP.page_equals_total).
+Definition ordered_equals_total := ltac:(inst EqGP.ordered_equals_total).
+Definition opage_equals_total := ltac:(inst EqGP.opage_equals_total).
+Definition link_equals_total := ltac:(inst EqGP.link_equals_total).
+Definition object_branch_total := ltac:(inst EqGP.object_branch_total).
+Definition body_total := ltac:(inst EqGP.body_total).
+Definition iri_not_object_type := ltac:(inst EqGP.iri_not_object_type).
+Definition typ_iri := ltac:(inst EqGP.typ_iri).
+Definition swap_once := ltac:(inst EqGP.swap_once).
+Definition needs_swap_refl := ltac:(inst EqGP.needs_swap_refl).
+Definition swaps_once := ltac:(inst EqGP.swaps_once).
+Definition body_swaps := ltac:(inst EqGP.body_swaps).
+Definition c_member_fixed := ltac:(inst EqGP.c_member_fixed).
+Definition items_equal_S := ltac:(inst EqGP.items_equal_S).
+Definition fuel_main := ltac:(inst EqGP.fuel_main).
+Definition ieq_unfold := ltac:(inst EqGP.ieq_unfold).
+Definition ieq_total := ltac:(inst EqGP.ieq_total).
+Definition fuel_enough := ltac:(inst EqGP.fuel_enough).
+Definition items_equal_terminates := ltac:(inst EqGP.items_equal_terminates).
+Definition ieq_no_panic := ltac:(inst EqGP.ieq_no_panic).
+Definition ieq_nil := ltac:(inst EqGP.ieq_nil).
+Definition nl_equals_refl := ltac:(inst EqGP.nl_equals_refl).
+Definition contains_refl := ltac:(inst EqGP.contains_refl).
+Definition all_contained_refl := ltac:(inst EqGP.all_contained_refl).
+Definition itemcoll_refl := ltac:(inst EqGP.itemcoll_refl).
+Definition cmp_one_refl := ltac:(inst EqGP.cmp_one_refl).
+Definition all_cmp_refl := ltac:(inst EqGP.all_cmp_refl).
+Definition nil_guard_obj := ltac:(inst EqGP.nil_guard_obj).
+Definition object_equals_refl := ltac:(inst EqGP.object_equals_refl).
+Definition intransitive_equals_refl := ltac:(inst EqGP.intransitive_equals_refl).
+Definition activity_equals_refl := ltac:(inst EqGP.activity_equals_refl).
+Definition actor_equals_refl := ltac:(inst EqGP.actor_equals_refl).
+Definition collection_equals_refl := ltac:(inst EqGP.collection_equals_refl).
+Definition page_equals_refl := ltac:(inst EqGP.page_equals_refl).
+Definition ordered_equals_refl := ltac:(inst EqGP.ordered_equals_refl).
+Definition opage_equals_refl := ltac:(inst EqGP.opage_equals_refl).
+Definition link_equals_refl := ltac:(inst EqGP.link_equals_refl).
+Definition object_branch_refl := ltac:(inst EqGP.object_branch_refl).
+Definition ieq_refl_size := ltac:(inst EqGP.ieq_refl_size).
+Definition ieq_refl := ltac:(inst EqGP.ieq_refl).
+Definition mism_sym := ltac:(inst EqGP.mism_sym).
+Definition obind_false_total := ltac:(inst EqGP.obind_false_total).
+Definition object_equals_mism := ltac:(inst EqGP.object_equals_mism).
+Definition intransitive_equals_mism := ltac:(inst EqGP.intransitive_equals_mism).
+Definition activity_equals_mism := ltac:(inst EqGP.activity_equals_mism).
+Definition actor_equals_mism := ltac:(inst EqGP.actor_equals_mism).
+Definition collection_equals_mism := ltac:(inst EqGP.collection_equals_mism).
+Definition page_equals_mism := ltac:(inst EqGP.page_equals_mism).
+Definition ordered_equals_mism := ltac:(inst EqGP.ordered_equals_mism).
+Definition opage_equals_mism := ltac:(inst EqGP.opage_equals_mism).
+Definition object_branch_mism := ltac:(inst EqGP.object_branch_mism).
+Definition body_objects_noswap := ltac:(inst EqGP.body_objects_noswap).
+Definition ieq_mism := ltac:(inst EqGP.ieq_mism).
+Definition equals_method_nil := ltac:(inst EqGP.equals_method_nil).
+Definition all_cmp_false := ltac:(inst EqGP.all_cmp_false).
+Definition needs_swap_same_type := ltac:(inst EqGP.needs_swap_same_type).
+Definition object_equals_block_false := ltac:(inst EqGP.object_equals_block_false).
+Definition ieq_core_block_false := ltac:(inst EqGP.ieq_core_block_false).
+Definition ieq_activity_block_false := ltac:(inst EqGP.ieq_activity_block_false).
+Definition cmp_item_rejects := ltac:(inst EqGP.cmp_item_rejects).
+Definition cmp_items_rejects := ltac:(inst EqGP.cmp_items_rejects).
+Definition cmp_nlv_rejects := ltac:(inst EqGP.cmp_nlv_rejects).
+Definition cmp_time_rejects := ltac:(inst EqGP.cmp_time_rejects).
+Definition cmp_dur_rejects := ltac:(inst EqGP.cmp_dur_rejects).
+Definition cmp_url_rejects := ltac:(inst EqGP.cmp_url_rejects).
+Definition ieq_iris := ltac:(inst EqGP.ieq_iris).
+Definition ieq_ids_differ := ltac:(inst EqGP.ieq_ids_differ).
+Definition ieq_types_differ := ltac:(inst EqGP.ieq_types_differ).
 
 (* the compared-property table covers the object core of the generated layout, except the four
    properties the property text excludes or treats separately (id, type, mediaType, source) *)
